@@ -41,12 +41,12 @@ type HTTPCell struct {
 // Cell is one point of the configuration alphabet.
 type Cell struct {
 	Mech     string    `json:"mechanism"`
-	Cache    string    `json:"cache"`                           // memory | redis
-	R        *int      `json:"remaining_lifetime_s,omitempty"`  // nil = the credential/certificate/token carries no expiry
-	Proto    *int      `json:"prototype_ttl_s,omitempty"`       // nil = unset
-	OverMode string    `json:"rule_override"`                   // none | without-ttl | ttl
-	Over     *int      `json:"rule_override_ttl_s,omitempty"`   // with OverMode == ttl
-	VLeeway  *int      `json:"validity_leeway_s,omitempty"`     // nil = unset
+	Cache    string    `json:"cache"`                          // memory | redis
+	R        *int      `json:"remaining_lifetime_s,omitempty"` // nil = the credential/certificate/token carries no expiry
+	Proto    *int      `json:"prototype_ttl_s,omitempty"`      // nil = unset
+	OverMode string    `json:"rule_override"`                  // none | without-ttl | ttl
+	Over     *int      `json:"rule_override_ttl_s,omitempty"`  // with OverMode == ttl
+	VLeeway  *int      `json:"validity_leeway_s,omitempty"`    // nil = unset
 	HTTP     *HTTPCell `json:"http,omitempty"`
 }
 
@@ -270,7 +270,9 @@ func newWorld(cell Cell) (*world, error) {
 	return w, nil
 }
 
-func factoryFor(p *config.MechanismPrototypes) (mechanisms.MechanismFactory, error) { return hx.RealFactory(p) }
+func factoryFor(p *config.MechanismPrototypes) (mechanisms.MechanismFactory, error) {
+	return hx.RealFactory(p)
+}
 
 func (w *world) setTTL(conf map[string]any) {
 	if w.cell.Proto != nil {
